@@ -64,7 +64,7 @@ func strideCanon(st *core.Stride, err error) string {
 func runC06(c *sim.Ctx, t *testing.T) {
 	sim.Install(c)
 	defer sim.Uninstall()
-	cfg := genCfg{native: true, failOps: true, nullRet: true, permanents: true, badBranch: true, unknownNode: true, guards: true, guardEmits: true, loops: true, maxNodes: 5, propWrites: true, errorNode: true, sameStub: true, inPlace: true}
+	cfg := genCfg{native: true, failOps: true, nullRet: true, permanents: true, badBranch: true, unknownNode: true, guards: true, guardEmits: true, loops: true, maxNodes: 5, propWrites: true, errorNode: true, sameStub: true, inPlace: true, globals: true, noop: true}
 	gs := genSpec(c, cfg)
 	spec, err := compile(gs)
 	if err != nil {
@@ -85,10 +85,44 @@ func runC06(c *sim.Ctx, t *testing.T) {
 			msgs[i] = typify(draw, mm)
 		}
 	}
+	// a scalar message for a branch whose whole pattern is that scalar (the match binds
+	// nothing: the result must still not be the caller's map)
+	scalarNode := ""
+	if !typed && c.Chance(1, 5, "scalarmsg") {
+		type pair struct {
+			node string
+			v    interface{}
+		}
+		var ps []pair
+		for _, name := range nodeNames(gs) {
+			n := gs.Nodes[name]
+			if n.Type != "message" || n.Action != nil {
+				continue
+			}
+			for _, b := range n.Branches {
+				switch v := b.Pattern.(type) {
+				case float64, bool:
+					ps = append(ps, pair{name, v})
+				case string:
+					if !strings.HasPrefix(v, "?") {
+						ps = append(ps, pair{name, v})
+					}
+				}
+			}
+		}
+		if len(ps) > 0 {
+			p := ps[c.Intn(len(ps), "scalarpick")]
+			msgs = append([]interface{}{p.v}, msgs...)
+			scalarNode = p.node
+		}
+	}
 	nstates := 1 + c.Intn(3, "fanout")
 	shape := ""
 	for k := 0; k < nstates; k++ {
 		start := genState(c, gs, cfg)
+		if scalarNode != "" && k == 0 {
+			start.Node = scalarNode
+		}
 		if start.Bs == nil {
 			start.Bs = map[string]interface{}{}
 		}
